@@ -73,11 +73,16 @@ def run(ctx):
         t = events.trigger('tensorlib_changed')
         try: return len(t)
         except TypeError: return 0
-    for h in range(ctx.n(25, 1200)):
+    # load every backend once, then park everything that exists now in the permanent generation: the collections
+    # below (needed to make deletions effective) then only scan what the histories create
+    for nm, pr in BKS: pyhf.set_backend(nm, precision=pr)
+    gc.collect(); gc.freeze()
+    for h in range(ctx.n(40, 1500)):
         gc.collect()
         cur = 0
         pyhf.set_backend(*[BKS[0][0]], precision=BKS[0][1]); gc.collect()
         base = ncallbacks()
+        observed = (h % 2 == 0)    # len() of the registry flushes dead references: every other history runs without looking
         objs = []      # (kind, object or None, weight, creation payload)
         ops = [['set', 0]]
         model_ops = []
@@ -96,9 +101,9 @@ def run(ctx):
                 model_ops.append(['set', k]); history.append(['set_backend', BKS[k][0], BKS[k][1], opt])
             elif r < 0.65 or not objs:
                 what = rng.choice(['model', 'model', 'interp', 'viewer'])
-                before = ncallbacks()
+                before = ncallbacks() if observed else 0
                 o, payload = make_object(pyhf, rng, what)
-                w = ncallbacks() - before
+                w = ncallbacks() - before if observed else 0
                 objs.append([what, o, w, payload])
                 del o
                 model_ops.append(['create', []]); history.append(['create', what])
@@ -106,8 +111,16 @@ def run(ctx):
                 alive = [i for i, x in enumerate(objs) if x[1] is not None]
                 if not alive: continue
                 i = rng.choice(alive)
+                dead_kind = objs[i][0]
                 objs[i][1] = None; gc.collect()
                 model_ops.append(['delete', i]); history.append(['delete', i])
+                if rng.random() < 0.7:
+                    # … and straight away a new object of the same kind (it may well land on the recycled address)
+                    before = ncallbacks() if observed else 0
+                    o, payload = make_object(pyhf, rng, dead_kind)
+                    objs.append([dead_kind, o, ncallbacks() - before if observed else 0, payload])
+                    del o
+                    model_ops.append(['create', []]); history.append(['create', dead_kind])
             else:
                 alive = [i for i, x in enumerate(objs) if x[1] is not None]
                 if not alive: continue
@@ -116,6 +129,7 @@ def run(ctx):
                 history.append(['eval', i])
             # ---- correspondence after every step: live callback count
             gc.collect()
+            if not observed: continue
             rep = lean.ok({'op': 'events', 'ops': [['set', 0]] + model_ops})[-1]
             want = base + sum(objs[i][2] for i in rep['reg']) if rep['alive'] else base
             # the model flushes dead references at a switch; the implementation's len() flushes on access
@@ -126,6 +140,18 @@ def run(ctx):
                 ctx.disagree('events.live-callbacks', {'history': list(history)}, want_live, got_live)
             if not all(rep['fresh']):
                 ctx.disagree('events.model-invariant', {'history': list(history)}, rep['fresh'], None, 'model invariant broken (should be impossible)')
+        # ---- end of the history: one more effective switch (half of the time to the other precision of a backend that
+        # was already visited), then EVERY surviving object must evaluate like a fresh one
+        visited = sorted({m_[1] for m_ in model_ops if m_[0] == 'set'} | {0})
+        other_prec = [j for j, (nm, pr) in enumerate(BKS) if j != cur and any(BKS[v][0] == nm and BKS[v][1] != pr for v in visited)
+                      and j < len(BKS) - (0 if ctx.thorough else 2)]
+        cand = other_prec if (other_prec and rng.random() < 0.6) else [j for j in range(len(BKS) - (0 if ctx.thorough else 2)) if j != cur]
+        k = rng.choice(cand)
+        pyhf.set_backend(BKS[k][0], precision=BKS[k][1]); nswitch += 1; cur = k
+        model_ops.append(['set', k]); history.append(['set_backend', BKS[k][0], BKS[k][1], 'scipy'])
+        for i, x in enumerate(objs):
+            if x[1] is not None:
+                eval_object(ctx, pyhf, x, history, i)
         # fits after the history
         alive_models = [x for x in objs if x[0] == 'model' and x[1] is not None]
         if alive_models and h % 5 == 0:
